@@ -50,10 +50,14 @@ def main():
         finally:
             sh(f"git -C /repo worktree remove --force {wt}")
         now = {c for c, r in results.items() if r["exit"] != 0}
+        # a detection made only of undecided obligations may be a timeout (no retry here): look at it before believing it
+        soft = {c for c in now if not any("status=failed" in v or "cover:missing" in v or "status=vacuous" in v for v in results[c]["violations"])}
         meta["checks_with_patch"] = results
         meta["caught_by"] = sorted(now)
         json.dump(meta, open(f"{d}/meta.json", "w"), indent=1)
         tag = "caught by " + ",".join(sorted(now)) if now else "NOT CAUGHT"
+        if soft:
+            tag += "  (undecided only: " + ",".join(sorted(soft)) + ")"
         if was and not now:
             tag += "  <-- was caught by " + ",".join(sorted(was))
             lost.append(name)
